@@ -40,6 +40,10 @@ V_FORMS = ["vec", "vec", "vec_t", "vec_list", "vec_q", "vec_qconv", "quantity_ba
 
 
 def generate(tape, tier="quick"):
+    if tape.chance(1, 30):
+        # metadata objects shared between slots and reused for a second composition (sim/shared.py, family SH)
+        from ..shared import gen_shared
+        return gen_shared(tape)
     gridded = tape.chance(1, 2)
     g = gen_structured(tape, max_dim=2, max_len=4) if gridded else None
     ngdim = tape.choice([1, 1, 2]) if (not gridded and tape.chance(1, 3)) else 0
@@ -123,8 +127,16 @@ def generate(tape, tier="quick"):
         sc["ngdim"] = ngdim
     return sc
 
+RULE = RULE + (' A 1/30 share is family SH (sim/shared.py): 1-3 real CallbackGenerators on grids and units of their own feed the inputs of one real DebugConsumer; all inputs are declared with ONE request Info (grid unset, units unset or convertible), and the composition is built and run once or twice from the very same Info objects with different start times; oracles owned here: all four.')
+REAL = list(REAL) + ["CallbackGenerator, DebugConsumer built twice from shared Info objects (family SH)"]
+
 
 def execute(sc):
+    if sc.get("engine") == "SH":
+        from ..shared import run_shared
+        r = run_shared(sc)
+        r["violations"] = [x for x in r["violations"] if x["oracle"] in ('sh-run-raises', 'sh-value', 'sh-units', 'sh-info')]
+        return r
     viol, log = [], []
 
     def v(oracle, kind, msg):
